@@ -20,6 +20,7 @@ case "$FLAVOUR" in
   asan) OPT="-O1 -g -fno-omit-frame-pointer -fsanitize=address,undefined ${XCV_UBSAN_RECOVER:--fno-sanitize-recover=undefined}";;
   tsan) OPT="-O1 -g -fsanitize=thread";;
   norand) EXTRA="norand";;
+  noft) EXTRA="noft";;
   cfg:*) HASHES=",${FLAVOUR#cfg:},";;
   *) echo "unknown flavour $FLAVOUR" >&2; exit 2;;
 esac
@@ -29,6 +30,7 @@ cp "$REPO/config.h" "$OUT/inc/config.h"
 COMPAT=yes; OBS=1
 case "$HASHES" in *,descrypt,*) ;; *) COMPAT=no; OBS=0
   sed -i 's/^#define ENABLE_OBSOLETE_API 1/#define ENABLE_OBSOLETE_API 0/' "$OUT/inc/config.h";; esac
+[ "$EXTRA" = noft ] && sed -i 's/^#define ENABLE_FAILURE_TOKENS 1/#define ENABLE_FAILURE_TOKENS 0/' "$OUT/inc/config.h"
 export LC_ALL=C
 $PERL $S/gen-crypt-hashes-h "$REPO/lib/hashes.conf" "$HASHES" > "$OUT/inc/crypt-hashes.h"
 $PERL $S/gen-crypt-symbol-vers-h yes SYMVER_MIN=GLIBC_2.0 SYMVER_FLOOR=GLIBC_2.2.5 COMPAT_ABI=$COMPAT \
